@@ -544,6 +544,49 @@ theorem sniffed_read_eq_explicit (cfg : Cfg) (o : NumOracle F) (d : Char) (hdr :
   unfold readCsv resolveDialect
   simp [hp.1, hp.2, hs, hd0]
 
+/-- **explicit_wins.**  For every file and every parameter setting: an explicit delimiter and an
+    explicit `header()` / `no_header()` are the ones `read_csv` uses, whatever the sniffer thinks of
+    the file and whether or not it runs for the other setting; the sniffer's values are used only for
+    what the caller left open (`delimiter = 0`, `GUESS_HEADER`). -/
+theorem explicit_wins (cfg : Cfg) (o : NumOracle F) (p : Params) (lines : List Str) :
+    (p.delim ≠ '\x00' → (resolveDialect cfg o p lines).1 = p.delim) ∧
+    (∀ b, p.header = some b → (resolveDialect cfg o p lines).2 = b) ∧
+    (p.delim = '\x00' → (resolveDialect cfg o p lines).1 = (sniffer o cfg.sniffLines lines).1) ∧
+    (p.header = none → (resolveDialect cfg o p lines).2 = (sniffer o cfg.sniffLines lines).2) := by
+  unfold resolveDialect
+  refine ⟨?_, ?_, ?_, ?_⟩
+  · intro h; split <;> simp [h]
+  · intro b h; split <;> simp [h]
+  · intro h; simp [h]
+  · intro h; simp [h]
+
+/-- consequently, with an explicit header setting the import is the loop of `read_csv` run with that
+    setting over the records parsed with the explicit – or, if left open, the guessed – delimiter: the
+    sniffer's header vote has no influence, for any file, also when the delimiter is sniffed -/
+theorem explicit_header_wins (cfg : Cfg) (o : NumOracle F) (p : Params) (b : Bool) (bytes : Str)
+    (h : p.header = some b) :
+    readCsv cfg o p bytes =
+      readCsvRecs cfg o p.outIdx b
+        (records { delim := if p.delim = '\x00' then guessDelimiter cfg.sniffLines (splitLines bytes) else p.delim,
+                   trimWs := p.trimWs, keepQuotes := p.keepQuotes } p.hook (splitLines bytes)) := by
+  unfold readCsv resolveDialect
+  by_cases hd : p.delim = '\x00' <;> simp [h, hd, sniffer]
+
+/-- **explicit header, sniffed delimiter, on a table.**  A file without quoting whose cells are not
+    blank and free of the five candidate delimiters (at least two columns, at least one line; the
+    cells may be numbers or text, the first line may or may not look like a header to the sniffer):
+    reading it with `header()` / `no_header()` and the delimiter left to the sniffer is reading it
+    with both given explicitly. -/
+theorem explicit_header_sniffed_delimiter (cfg : Cfg) (o : NumOracle F) (d : Char) (hd : d ∈ preferred)
+    (w : Nat) (hw : 2 ≤ w) (rows : List (List Str)) (hne : rows ≠ [])
+    (hcells : ∀ r ∈ rows, r.length = w ∧ ∀ c ∈ r, PlainCell c ∧ isBlank c = false)
+    (p : Params) (b : Bool) (hn : 1 ≤ cfg.sniffLines) (hp : p.delim = '\x00' ∧ p.header = some b) :
+    readCsv cfg o p (renderPlain d rows) = readCsv cfg o { p with delim := d } (renderPlain d rows) := by
+  have hg := guessDelimiter_plain cfg.sniffLines hn d hd w hw rows hne hcells
+  have hd0 : d ≠ '\x00' := (preferred_facts d hd).1
+  rw [explicit_header_wins cfg o p b _ hp.2, explicit_header_wins cfg o { p with delim := d } b _ hp.2]
+  simp [hp.1, hg, hd0]
+
 /-! ## 6. the hypotheses can be met -/
 
 /-- a toy oracle: the numbers are the non-empty digit strings -/
@@ -616,6 +659,19 @@ example : Unambiguous digitOracle ',' (some ["x".toList, "y".toList])
     simp at hc
     rcases hc with rfl | rfl <;>
       simp [HeadCell, PlainCell, preferred, isBlank, isSpace, isNumber, trim, digitOracle] <;> decide
+
+/-- `2019;2020 / 1;2` (column names that are numbers: the sniffer votes "no header") meets the
+    hypotheses of `explicit_header_sniffed_delimiter` -/
+example : readCsv {} digitOracle { header := some true } (renderPlain ';' [["2019".toList, "2020".toList], ["1".toList, "2".toList]]) =
+    readCsv {} digitOracle { header := some true, delim := ';' }
+      (renderPlain ';' [["2019".toList, "2020".toList], ["1".toList, "2".toList]]) :=
+  explicit_header_sniffed_delimiter {} digitOracle ';' (by simp [preferred]) 2 (by omega) _ (by simp)
+    (by
+      intro r hr
+      simp at hr
+      rcases hr with rfl | rfl <;> refine ⟨rfl, ?_⟩ <;> intro c hc <;> simp at hc <;> rcases hc with rfl | rfl <;>
+        simp [PlainCell, preferred, isBlank, isSpace] <;> decide)
+    { header := some true } true (by decide) ⟨rfl, rfl⟩
 
 /-- an XRFF document (numeric attribute `x`, nominal class attribute `c`, instances `1,u` and `2,v`)
     meets the hypotheses of `rows_faithful_xrff` -/
